@@ -276,6 +276,12 @@ class FormatMachine(MachineBase):
         except Exception as e:
             if isinstance(e, HarnessError):
                 raise
+            if d.get("must") == "accept":
+                raise Violation(d["must_prop"], "%s.damaged_but_legal_document_loads" % d["must_prop"],
+                                "legal-document-rejected/%s/%s" % (d["must_key"], exc_class(e)),
+                                {"error": exc_class(e), "msg": str(e)[:200], "via": via})
+            if d.get("must") == "reject":
+                self.count(d["must_prop"], ["rejected", d["must_key"], via])
             if d["clean"] and d["expected"] is not None:
                 raise Violation(P, "%s.own_output_loads" % P, "own-output-rejected/%s/%s" % (self.FORMAT, exc_class(e)),
                                 {"error": exc_class(e), "msg": str(e)[:200], "via": via})
@@ -303,6 +309,11 @@ class FormatMachine(MachineBase):
             self.rebind(s)
             self.nrestarts += 1
             return "restarted"
+        if d.get("must") == "reject":
+            raise Violation(d["must_prop"], "%s.bad_document_rejected" % d["must_prop"],
+                            "bad-document-loaded/%s" % d["must_key"], {"via": via, "what": d["must_key"]})
+        if d.get("must") == "accept":
+            self.count(d["must_prop"], ["accepted", d["must_key"], via])
         # stored state not authoritative (damaged on purpose): nothing to compare
         s.obj = new
         s.tainted = True
